@@ -22,6 +22,12 @@ def plan(tier, seed):
         specs.append({'lane': 'real', 'timeout': 120, 'params': {
             'nproc': nproc, 'pool_hard': ph, 'job_hard': jh, 'eff_limit': eff, 'task': task,
             'dur': dur, 'over': bool(eff and factor > 1), 'siblings': i % 2 == 0, 'probes': 3}})
+    # finished in time, slow result callback: the limit's instant passes while
+    # the callback runs and the worker is busy with the next job
+    for nproc in (1, 2) if tier == 'quick' else (1, 1, 2, 3):
+        specs.append({'lane': 'real', 'timeout': 120, 'params': {
+            'nproc': nproc, 'pool_hard': None, 'job_hard': 3.0, 'eff_limit': 3.0, 'task': 'c_sleep',
+            'dur': 0.2, 'over': False, 'siblings': False, 'probes': 3, 'slow_cb': 6.0}})
     return specs
 
 
@@ -34,7 +40,7 @@ def run_spec(spec, rec):
     rec.case()
     rec.count('real:scenarios')
     attrs = {'lane': 'real', 'task': p['task'], 'over_limit': p['over'], 'nproc': p['nproc'],
-             'siblings': p['siblings']}
+             'siblings': p['siblings'], 'slow_callback': bool(p.get('slow_cb'))}
     if r['status'] == 'died':
         rec.violation('host_process_died', attrs, rc=r['rc'], stderr=r['stderr'][-3000:], params=p)
         return
@@ -70,6 +76,15 @@ def run_spec(spec, rec):
         rec.count('real:in_limit_jobs')
         if oc[0] != 'ok':
             rec.violation('in_limit_or_unlimited_job_failed', attrs, outcome=oc, params=p)
+        if obs.get('timeout_cb'):
+            rec.violation('timeout_callback_for_in_limit_job', attrs, calls=obs['timeout_cb'], params=p)
+    if p.get('slow_cb'):
+        rec.count('real:slow_callback_scenarios')
+        if obs.get('follower', ['?'])[0] != 'ok':
+            rec.violation('next_job_on_worker_disturbed', attrs, follower=obs.get('follower'), params=p)
+        if obs.get('victim_state_end') in (None, 'Z'):
+            rec.violation('worker_killed_for_in_limit_job', attrs, state=obs.get('victim_state_end'),
+                          params=p)
     for kind, got in obs.get('siblings', []):
         rec.count('real:sibling_jobs')
         good = (got[0] == 'ok' and len(got[1]) == 3) if kind == 'map' else \
